@@ -109,6 +109,8 @@ impl<'s, M: Matcher, S: Sink> SliceByLine<'s, M, S> {
         if self.core.begin()? {
             let binary_upto =
                 std::cmp::min(self.slice.len(), DEFAULT_BUFFER_CAPACITY);
+            #[cfg(ripgrep_verif)]
+            let binary_upto = self.core.verif_window(binary_upto);
             let binary_range = Range::new(0, binary_upto);
             if !self.core.detect_binary(self.slice, &binary_range)? {
                 while !self.slice[self.core.pos()..].is_empty()
@@ -158,6 +160,8 @@ impl<'s, M: Matcher, S: Sink> MultiLine<'s, M, S> {
         if self.core.begin()? {
             let binary_upto =
                 std::cmp::min(self.slice.len(), DEFAULT_BUFFER_CAPACITY);
+            #[cfg(ripgrep_verif)]
+            let binary_upto = self.core.verif_window(binary_upto);
             let binary_range = Range::new(0, binary_upto);
             if !self.core.detect_binary(self.slice, &binary_range)? {
                 let mut keepgoing = true;
